@@ -24,14 +24,16 @@ RULE = (
     "and CMake render hex with 0x, JSON carries the same number.  Non-trivial = some option has an active range and a "
     "candidate value (user / set / default) outside it, or a differently spelled / lax number was offered.  In half of the cases a "
     "second batch of set_value inputs follows after everything has been read once, and all clauses are judged again on the "
-    "incrementally re-evaluated state (signatures end in |after-second-batch).  Distinct = SHA-1."
+    "incrementally re-evaluated state (signatures end in |after-second-batch).  In 20 % of the cases the inputs are sent to an "
+    "in-process config server as `set` requests instead (signatures end in |server) and the server's live configuration is judged.  "
+    "Distinct = SHA-1."
 )
 ASSUMPTIONS = [
     "an empty value is admitted for non-bool options (the statement allows it when nothing provides a value; whether "
     "something should have provided one is C01's question)",
     "ranges whose bound operand has no numeric value (a switched-off option) are not judged",
 ]
-BUDGET = {"quick": {"examples": 4000}, "thorough": {"examples": 300000, "deadline_s": 1500}}
+BUDGET = {"quick": {"examples": 4000}, "thorough": {"examples": 300000, "deadline_s": 900}}
 
 CFG = gen.cfg(
     max_syms=10,
@@ -79,7 +81,9 @@ def _cases(draw):
         for _ in range(d.int(1, 5)):
             n = d.pick(names)
             later.append([n, gen.gen_value(d, tree["types"][n], CFG, d.weighted(KINDS)), "set_value"])
-    return {"tree": tree, "inputs": inputs, "later": later, "parser": 2 if d.chance(15) else 1}
+    # third door of the statement: the same inputs sent to the config server as `set` requests (numbers as JSON numbers where
+    # the text is one, otherwise as strings - what a client that passes user input through does)
+    return {"tree": tree, "inputs": inputs, "later": later, "parser": 2 if d.chance(15) else 1, "server": d.chance(20)}
 
 
 def strategy(tier):
@@ -135,8 +139,50 @@ def _num(typ, text):
         return None
 
 
+def _json_value(typ: str, text: str):
+    if typ == "bool":
+        return text == "y"
+    if typ == "int" and re.match(r"^-?[0-9]+$", text) and len(text) < 19:
+        return int(text)
+    if typ == "float" and _FLOAT.match(text):
+        try:
+            v = float(text)
+            if math.isfinite(v):
+                return v
+        except ValueError:
+            pass
+    return text
+
+
+def _check_server(case, res: Result) -> Result:
+    """The inputs arrive through kconfserver `set` requests; the live configuration of the server is judged."""
+    from .. import server
+
+    tree = case["tree"]
+    types = tree["types"]
+    with kc.workdir() as d:
+        try:
+            kc.build(tree, d, parser=case.get("parser", 1))
+        except Exception as e:
+            res.skipped = "construct:" + type(e).__name__
+            return res
+        sdk = os.path.join(d, "sdkconfig")
+        open(sdk, "w").close()
+        reqs = [{"version": 3, "set": {name: _json_value(types[name], val)}} for name, val, _door in case["inputs"] + case.get("later", [])]
+        with kc.environ(tree.get("env") or {}):
+            t = server.Session(os.path.join(d, "Kconfig"), sdk, None, 3, case.get("parser", 1)).run(reqs)
+        if t.exception is not None:
+            res.fail(exc_sig(t.exception, "exception|server|"), f"the config server died on {reqs[len(t.replies_raw) - 1] if t.replies_raw else 'start'}: {type(t.exception).__name__}: {t.exception}")
+            return res
+        res.label("door:server")
+        _judge(case, t.kconf, d, res, [[n, v, "server"] for n, v, _ in case["inputs"] + case.get("later", [])], "|server")
+    return res
+
+
 def check(case) -> Result:
     res = Result()
+    if case.get("server"):
+        return _check_server(case, res)
     tree = case["tree"]
     types = tree["types"]
     with kc.workdir() as d:
